@@ -32,6 +32,8 @@ type schedSummary struct {
 	Known      map[string]string `json:"known"`
 	Samples    []string          `json:"samples"`
 	TraceFiles []string          `json:"trace_files"`
+	ConcFiles  []string          `json:"conc_files"`
+	ConcRuns   int               `json:"conc_runs"`
 	LockTraces int               `json:"lock_traces"`
 	Wall       float64           `json:"wall_s"`
 }
@@ -189,12 +191,17 @@ func cmdSched(args []string) {
 	perProp := map[string]int{} // violations kept per property (none crowds another one out)
 	var lockTraces []string
 	var lockOrigin []string
+	var concCases, concOrigin []string
 	record := func(name string, cfgSeed uint64, o *scenOut) {
 		if !strings.Contains(o.Desc, "ranger=true") && name != "ins" && name != "keys" && name != "ddl" && name != "snapd" {
 			for c, evs := range lockEvents(o.Trace) {
 				lockTraces = append(lockTraces, "["+strings.Join(evs, "; ")+"]")
 				lockOrigin = append(lockOrigin, fmt.Sprintf("%s:%d:chunk%d:%v", name, cfgSeed, c, o.Choices))
 			}
+		}
+		if name == "rows" && o.Conc != "" && !o.Stuck {
+			concCases = append(concCases, o.Conc)
+			concOrigin = append(concOrigin, fmt.Sprintf("%s:%d:%v", name, cfgSeed, o.Choices))
 		}
 		sum.Runs++
 		sum.ByScenario[name]++
@@ -340,6 +347,22 @@ func cmdSched(args []string) {
 		os.WriteFile(name, []byte(txt), 0o644)
 		sum.TraceFiles = append(sum.TraceFiles, name)
 	}
+	// the finished runs of the rows scenario, for coq/ConcCheck.v (the LTS of ConcStore.v replays them)
+	const perConc = 150
+	for i := 0; i < len(concCases); i += perConc {
+		j := i + perConc
+		if j > len(concCases) {
+			j = len(concCases)
+		}
+		name := filepath.Join(*out, fmt.Sprintf("conc_%05d.v", i))
+		txt := "From stdpp Require Import gmap list.\nFrom ColumnV Require Import Bytes Store Check ConcStore ConcCheck.\nLocal Open Scope N_scope.\n" +
+			fmt.Sprintf("Definition M := Eval vm_compute in conc_mismatches %d [\n %s].\nPrint M.\n", i, strings.Join(concCases[i:j], ";\n "))
+		os.WriteFile(name, []byte(txt), 0o644)
+		sum.ConcFiles = append(sum.ConcFiles, name)
+	}
+	sum.ConcRuns = len(concCases)
+	cb, _ := json.Marshal(concOrigin)
+	os.WriteFile(filepath.Join(*out, "conc_origin.json"), cb, 0o644)
 	sum.LockTraces = len(lockTraces)
 	ob, _ := json.Marshal(lockOrigin)
 	os.WriteFile(filepath.Join(*out, "lock_origin.json"), ob, 0o644)
